@@ -1438,6 +1438,8 @@ class Evaluator:
             return z3.If(c, za, zb)
         if isinstance(a, (tuple, list)) and isinstance(b, (tuple, list)) and len(a) == len(b):
             return tuple(z3.If(c, Z(to_num(x)), Z(to_num(y))) for x, y in zip(a, b))
+        if isinstance(a, str) and isinstance(b, str):
+            return a if a == b else Opaque(("ite", c, a, b), "str")  # only ever used as message text
         raise Outside("conditional expression over non-numbers")
 
     # -- subscripts ------------------------------------------------------------------------
